@@ -213,12 +213,17 @@ func init() {
 		}
 		return nil
 	}
-	for _, n := range []string{"(*sync.Mutex).Lock", "(*sync.RWMutex).Lock", "(*sync.RWMutex).RLock"} {
+	for _, n := range []string{"(*sync.Mutex).Lock", "(*sync.RWMutex).Lock"} {
 		intrinsics[n] = lock
 	}
-	for _, n := range []string{"(*sync.Mutex).Unlock", "(*sync.RWMutex).Unlock", "(*sync.RWMutex).RUnlock"} {
+	for _, n := range []string{"(*sync.Mutex).Unlock", "(*sync.RWMutex).Unlock"} {
 		intrinsics[n] = unlock
 	}
+	// a read lock does not make a write exclusive: stores under RLock alone
+	// are still flagged
+	nop := func(fr *frame, a []value) value { return nil }
+	intrinsics["(*sync.RWMutex).RLock"] = nop
+	intrinsics["(*sync.RWMutex).RUnlock"] = nop
 	intrinsics["(*sync.Once).Do"] = func(fr *frame, a []value) value {
 		cell := a[0].(*value)
 		s := (*cell).(structure)
